@@ -249,6 +249,16 @@ V = [
     ("C17", "S", "denominator spelled np.real(conj(H) * H) + lam, reciprocal precomputed", QS,
      "denom = (np.abs(H_hat) ** 2) + lam" , "denom = 1.0 / (np.real(np.conj(H_hat) * H_hat) + lam)\n    denom = 1.0 / denom", None),
     ("C17", "S", "filter as conj(H) * (1 / denom) * B", QS, "X_hat = H_conj * B_hat / denom", "X_hat = H_conj * (1.0 / denom) * B_hat", None),
+    # ------------------------------------------------------------------ fifth batch: centre embedding + fftshift / ifftshift
+    ("C17", "F", "blind w5/A", ("patch", "mut_c17_w5_A.diff", APP), None, None, "rule=C17."),
+    ("C17", "F", "blind w5/B: PSF embedded at the image centre, then fftshift (wrong for odd sizes)", ("patch", "mut_c17_w5_B.diff", QS), None, None,
+     "C17.D1.padding"),
+    ("C17", "S", "w5/B with the correct np.fft.ifftshift", ("patch", "mut_c17_w5_B.diff", QS), "return np.fft.fftshift(pad)",
+     "return np.fft.ifftshift(pad)", None),
+    ("C17", "S", "w5/B with ifftshift over explicit axes", ("patch", "mut_c17_w5_B.diff", QS), "return np.fft.fftshift(pad)",
+     "return np.fft.ifftshift(pad, axes=(0, 1))", None),
+    ("C17", "F", "w5/B with ifftshift over one axis only", ("patch", "mut_c17_w5_B.diff", QS), "return np.fft.fftshift(pad)",
+     "return np.fft.ifftshift(pad, axes=0)", "C17.D1.padding"),
 ]
 
 
